@@ -398,7 +398,6 @@ func checkC07(r *Run) {
 	_ = sort.Strings
 }
 
-
 // lineDiff shows the first differing lines of two texts.
 func lineDiff(a, b string) string {
 	la, lb := strings.Split(a, "\n"), strings.Split(b, "\n")
@@ -410,7 +409,6 @@ func lineDiff(a, b string) string {
 	}
 	return fmt.Sprintf("line counts %d vs %d", len(la), len(lb))
 }
-
 
 // diffClass: "imports-only" when the two texts differ only by import lines, else "content".
 func diffClass(a, b string) string {
